@@ -903,3 +903,56 @@ def rule_align(repo, res):
                             f"{cls}.encode_assignment no longer pads the parameter name to the width handed down by "
                             "encode_module (ljust(key_len)) before ' = ': sibling assignments lose their aligned '='",
                             where=f"pvl/encoder.py:{fn.lineno}"))
+
+
+def rule_quote_free(repo, res):
+    """QUOTE-FREE: a string is wrapped in a quote character that does not occur in it.  In the encode_string
+    implementations every `return Q + value + Q` with a *constant* quote character Q is reached only where `Q not in value`
+    is established: by an explicit test, or -- for the apostrophe -- by `self.is_symbol(value)` holding (is_symbol refuses
+    text with an apostrophe; checked on its source).  The general path picks the first quote character of the grammar that
+    is not in the text.  A fixed quote without that guarantee writes `"a 6" lens"`, which no reader takes for one string."""
+    from . import flow
+    n = 0
+    for enc in encoder_classes(repo):
+        ci = repo.classes[enc]
+        fn = ci.methods.get("encode_string")
+        if fn is None:
+            continue
+        pname = [a.arg for a in fn.args.args if a.arg != "self"][0]
+        # does is_symbol (as resolved for this class) refuse an apostrophe?
+        _, sym = repo.full_resolved(enc, "is_symbol")
+        sym_excludes = set()
+        if sym is not None:
+            for c in ast.walk(sym):
+                if isinstance(c, ast.Compare) and len(c.ops) == 1 and isinstance(c.ops[0], ast.In) and isinstance(c.left, ast.Constant) \
+                        and isinstance(c.left.value, str) and len(c.left.value) == 1:
+                    sym_excludes.add(c.left.value)
+        for st, conds in flow.stmts_with_conds(fn.body):
+            if not isinstance(st, ast.Return) or not isinstance(st.value, ast.BinOp):
+                continue
+            v = st.value
+            if not (isinstance(v.op, ast.Add) and isinstance(v.left, ast.BinOp) and isinstance(v.left.op, ast.Add)
+                    and isinstance(v.left.left, ast.Constant) and isinstance(v.right, ast.Constant)
+                    and v.left.left.value == v.right.value and v.right.value in ("'", '"')):
+                continue
+            q = v.right.value
+            n += 1
+            ok = False
+            for (t, pol) in conds:
+                if not isinstance(t, ast.AST):
+                    continue
+                for c in ast.walk(t):
+                    # `Q not in value` asserted, or `Q in value` negated
+                    if isinstance(c, ast.Compare) and len(c.ops) == 1 and isinstance(c.left, ast.Constant) and c.left.value == q:
+                        if (isinstance(c.ops[0], ast.NotIn) and pol) or (isinstance(c.ops[0], ast.In) and not pol):
+                            ok = True
+                    if isinstance(c, ast.Call) and norm(c.func) == "self.is_symbol" and pol and q in sym_excludes:
+                        # is_symbol holds (asserted, possibly inside a conjunction)
+                        ok = True
+            res.oblige("QUOTE-FREE", f"{enc}.encode_string: `{norm(st, 40)}` is reached only where {q!r} does not occur in the text", ok=ok)
+            if not ok:
+                res.add(Finding("QUOTE-FREE", f"{enc}.encode_string", f"`{norm(st, 40)}` without `{q} not in {pname}`",
+                                f"{enc}.encode_string wraps the text in {q!r} (`{norm(st, 50)}`) on a path where nothing establishes that "
+                                f"{q!r} does not occur in it: a string with that quote character inside (6 inches written 6 + the inch sign) is written with an inner quote and no reader "
+                                "takes the result for one string", where=f"pvl/encoder.py:{st.lineno}"))
+    res.oblige("QUOTE-FREE", f"{n} fixed-quote returns of the encode_string implementations examined", ok=True, nontrivial=False)
